@@ -93,6 +93,57 @@ theorem debug_mode_sticky (s : GateState) (ops : List GateOp)
       cases op <;> simp_all [gateStep, isSetDebug]
     simpa [gateRun] using ih (gateStep s op) this hrest
 
+/-- What a history does to the level of logger `k`, read off the history alone: each
+    `SetLevel` on `k` replaces it, nothing else touches it. -/
+def levelTrack (k : Nat) (a : Option Int) : GateOp → Option Int
+  | .setLevel j l => if j = k then a.map (fun _ => l) else a
+  | _ => a
+
+theorem step_level (s : GateState) (k : Nat) (op : GateOp) :
+    (gateStep s op).levels[k]? = levelTrack k s.levels[k]? op := by
+  cases op with
+  | setLevel j l =>
+    simp only [gateStep, levelTrack, List.getElem?_set]
+    by_cases hjk : j = k
+    · subst hjk
+      by_cases hlt : j < s.levels.length <;> simp [hlt]
+    · simp [hjk]
+  | register v t => simp [gateStep, levelTrack]
+  | setDebug on => simp [gateStep, levelTrack]
+
+/-- (5b) For every history: the level a logger gates with is the one given by the last
+    `SetLevel` on that very logger (its initial level if there was none) — no `SetLevel` on
+    another logger, no registration and no debug switch ever changes it. -/
+theorem level_is_last_set (s : GateState) (k : Nat) (ops : List GateOp) :
+    (gateRun s ops).levels[k]? = ops.foldl (levelTrack k) s.levels[k]? := by
+  induction ops generalizing s with
+  | nil => simp [gateRun]
+  | cons op ops ih =>
+    have := ih (gateStep s op)
+    simp only [gateRun, List.foldl_cons] at this ⊢
+    rw [this, step_level]
+
+/-- Corollary: a history without a `SetLevel` on logger `k` leaves its level alone. -/
+theorem level_untouched (s : GateState) (k : Nat) (ops : List GateOp)
+    (h : ∀ j l, GateOp.setLevel j l ∈ ops → j ≠ k) :
+    (gateRun s ops).levels[k]? = s.levels[k]? := by
+  rw [level_is_last_set]
+  induction ops generalizing s with
+  | nil => rfl
+  | cons op ops ih =>
+    have hrest : ∀ j l, GateOp.setLevel j l ∈ ops → j ≠ k := fun j l hm => h j l (by simp [hm])
+    have hop : levelTrack k s.levels[k]? op = s.levels[k]? := by
+      cases op with
+      | setLevel j l => simp [levelTrack, h j l (by simp)]
+      | register v t => rfl
+      | setDebug on => rfl
+    simp only [List.foldl_cons, hop]
+    exact ih s hrest
+
+-- non-vacuity: three loggers, a history touching loggers 1 and 2; logger 1 ends at its last SetLevel
+example : (gateRun { g := {}, levels := [4, 4, 4] }
+    [.setLevel 1 2, .setLevel 2 7, .register 9 (some 3), .setLevel 1 6, .setDebug false]).levels = [4, 6, 7] := by decide
+
 theorem admits_congr_non_debug (g g' : Globals) (L r : Int) (hr : r ≠ Lv.debug)
     (ht : g'.treatAs = g.treatAs) : admits g' L r = admits g L r := by
   unfold admits effective
